@@ -59,7 +59,7 @@ def upvar_index_of(body, op):
     return None
 
 
-@rule('S1', props=['C07', 'C08', 'C17', 'C12'], floor=2, configs=('all',))
+@rule('S1', props=['C07', 'C08', 'C17', 'C12', 'C15'], floor=2, configs=('all',))
 def s1_exactly_once(prog):
     """Stage::run for a cons cell: if the task already ran (has_run.0) it is not run again and the
     claim state is handed on unchanged; otherwise exactly one rayon::join runs the task exactly once
@@ -192,7 +192,7 @@ def ev_is_join(e):
     return is_join({'path': e['path']})
 
 
-@rule('S2', props=['C07', 'C08'], floor=3, configs=('all',))
+@rule('S2', props=['C07', 'C08', 'C12'], floor=3, configs=('all',))
 def s2_flag_iff_ran(prog):
     """run_add_ons, decided per CFG path: the first component of the returned tuple is `true` exactly on
     the paths that run the task (inside a rayon::join, exactly once), `false` on all others; every path
